@@ -29,6 +29,42 @@ func canonField(owner, name string) string {
 }
 
 func computeFieldAliases(p *Prog) {
+	// BoxLayout: the fields by their types — the only views.Orientation, the only bool (the "layout is
+	// stale" flag), the only views.View, the only slice of cells
+	if p.Views != nil {
+		if bl := p.namedType(p.Views, "BoxLayout"); bl != nil {
+			if bst, ok := bl.Underlying().(*types.Struct); ok {
+				has := map[string]bool{}
+				for i := 0; i < bst.NumFields(); i++ {
+					has[bst.Field(i).Name()] = true
+				}
+				byRole := map[string][]string{}
+				for i := 0; i < bst.NumFields(); i++ {
+					f := bst.Field(i)
+					switch {
+					case typeName(f.Type()) == "views.Orientation":
+						byRole["orient"] = append(byRole["orient"], f.Name())
+					case typeName(f.Type()) == "views.View":
+						byRole["view"] = append(byRole["view"], f.Name())
+					case f.Type().String() == "bool":
+						byRole["changed"] = append(byRole["changed"], f.Name())
+					default:
+						if _, isSl := f.Type().Underlying().(*types.Slice); isSl {
+							byRole["cells"] = append(byRole["cells"], f.Name())
+						}
+					}
+				}
+				for canon, names := range byRole {
+					if has[canon] || len(names) != 1 {
+						continue
+					}
+					fieldAliasMu.Lock()
+					fieldAlias["views.BoxLayout."+names[0]] = canon
+					fieldAliasMu.Unlock()
+				}
+			}
+		}
+	}
 	if p.Tcell == nil {
 		return
 	}
